@@ -325,6 +325,22 @@ func c06Recursion(e *Engine, res *EpisodeResult) {
 		}
 		return
 	}
+	if _, ok := p.Params["tailSpin"]; ok {
+		res.Nontrivial = true
+		e.probe("tailSpinAtFullDepth")
+		lr2 := runLimited(e, &p.Scripts[1], -1)
+		res.Evals++
+		if lr2.panicked != "" {
+			e.violate("C06.rec", "depth %d with a tail-recursive spin: panic reached the caller: %s", depth, lr2.panicked)
+			return
+		}
+		if (lr.err == nil) != (lr2.err == nil) {
+			e.violate("C06.rec:tail", "%d nested calls then a spin of 0 tail calls ends with %v; the same with a spin of 50 tail calls ends with %v (a tail call takes no frame)", depth, lr.err, lr2.err)
+		} else if lr.err != nil && errors.Is(lr.err, tengo.ErrStackOverflow) != errors.Is(lr2.err, tengo.ErrStackOverflow) {
+			e.violate("C06.rec:tail", "%d nested calls: spin 0 ends with %v, spin 50 with %v", depth, lr.err, lr2.err)
+		}
+		return
+	}
 	if k, ok := p.Params["forwardK"]; ok {
 		res.Nontrivial = true
 		e.probe("spreadForwardingRecursion")
